@@ -228,10 +228,54 @@ class Fork(Exception):
         self.alts = alts  # list of (label, cond or None, kind 'value'|'raise', payload)
 
 
+class _SplitKey:
+    """identity of one path-split decision that is not tied to an AST node of its own"""
+
+    def __init__(self, lineno):
+        self.lineno = lineno
+
+
 class PyRaise(Exception):
     def __init__(self, exc: SExc, line=None):
         self.exc = exc
         self.line = line
+
+
+class _MaybeUnbound:
+    def __repr__(self):
+        return 'MAYBE_UNBOUND'
+
+
+MAYBE_UNBOUND = _MaybeUnbound()  # environment entry of a name that the loop being cut may or may not have bound
+
+
+def _local_names(fn) -> set:
+    """names that are local variables of `fn` by Python's scoping rule: parameters and every name bound somewhere in its body
+    (not inside nested functions, lambdas, classes or comprehensions), minus those declared global / nonlocal"""
+    out, skip = set(), set()
+    a = fn.args
+    for x in a.posonlyargs + a.args + a.kwonlyargs:
+        out.add(x.arg)  # (*args / **kwargs are not bound by the executor: they stay opaque names)
+    stack = list(fn.body)
+    while stack:
+        n = stack.pop()
+        if isinstance(n, (ast.FunctionDef, ast.AsyncFunctionDef, ast.ClassDef)):
+            out.add(n.name)
+            continue
+        if isinstance(n, (ast.Lambda, ast.ListComp, ast.SetComp, ast.DictComp, ast.GeneratorExp)):
+            # their targets are local to them; a walrus inside a comprehension binds in the enclosing function
+            out.update(t.target.id for t in ast.walk(n) if isinstance(t, ast.NamedExpr) and isinstance(t.target, ast.Name) and not isinstance(n, ast.Lambda))
+            continue
+        if isinstance(n, (ast.Global, ast.Nonlocal)):
+            skip.update(n.names)
+        elif isinstance(n, ast.Name) and isinstance(n.ctx, (ast.Store, ast.Del)):
+            out.add(n.id)
+        elif isinstance(n, ast.ExceptHandler) and n.name:
+            out.add(n.name)
+        elif isinstance(n, (ast.Import, ast.ImportFrom)):
+            out.update((al.asname or al.name).split('.')[0] for al in n.names)
+        stack.extend(ast.iter_child_nodes(n))
+    return out - skip - {x.arg for x in (a.vararg, a.kwarg) if x is not None}
 
 
 INTERNED_STRINGS = set()  # string literals encoded as constants of the opaque sort; distinct literals denote distinct values
@@ -744,7 +788,8 @@ class Engine:
         self.obl_count += 1
         info = dict(info)
         info['trace'] = ' > '.join(st.trace[-12:])
-        o = valid('%s/%s' % (self.label, name), list(st.pc) + interned_distinct(list(st.pc) + [goal]), goal, kind=kind, **info)
+        none_false = [z3.Not(self.ufs['truthy'](z3.Const('const_None', U)))] if 'truthy' in self.ufs else []  # None is false
+        o = valid('%s/%s' % (self.label, name), list(st.pc) + none_false + interned_distinct(list(st.pc) + none_false + [goal]), goal, kind=kind, **info)
         self.ctx.add(o, replay=getattr(self, 'replayer', None))
         return o
 
@@ -759,10 +804,14 @@ class Engine:
         c = self.c
         st = State()
         # environment: module constants, contract constants, spec functions
+        fn_locals = _local_names(self.fn) if c.fragment is None else set()
         for k, v in self.modconsts.items():
-            st.env[k] = v
+            if k not in fn_locals:  # a local variable of that name shadows the module constant in the whole function
+                st.env[k] = v
         for k, v in c.consts.items():
             st.env[k] = v
+        if c.fragment is None:
+            st.env['__locals__'] = frozenset(fn_locals)
         for name, (ats, rt) in c.spec_funcs.items():
             f = self.uf(name, ats, rt)
             rtp = parse_type(rt)
@@ -911,7 +960,7 @@ class Engine:
         was = getattr(self, 'in_spec', False)
         self.in_spec = True
         try:
-            return self.truthy(self.ev(node, st))
+            return self.ev_cond(node, st)
         except PyRaise as r:
             raise Undecided('contract expression %r raises %s' % (s[:80], r.exc))
         finally:
@@ -959,13 +1008,21 @@ class Engine:
         return res
 
     def exec_stmt(self, node, st: State):
+        # the state before the statement: a path split re-executes the statement from HERE, not from the state the abandoned
+        # first attempt left behind (ghost counters bumped, lists appended to by call models evaluated before the split point
+        # would otherwise be applied twice)
+        st0 = st.fork()
         try:
             return self._exec_stmt(node, st)
         except Fork as f:
             outs = []
             for alt in f.alts:
                 label, cond, kind, payload = alt[:4]
-                s2 = st.fork()
+                s2 = st0.fork()
+                # ... but the facts recorded by the first attempt stay: the outcomes (conditions, values) are written in terms of
+                # the symbols it introduced (a modelled call's result, a divmod quotient), and what is known about those symbols
+                # must not be lost
+                s2.pc = list(st.pc)
                 if len(alt) > 4 and alt[4] is not None:
                     alt[4](s2)
                 if cond is not None:
@@ -1007,9 +1064,24 @@ class Engine:
                 self.assign(node.target, v, st)
             return [(st, ('next',))]
         if isinstance(node, ast.AugAssign):
+            tgt = node.target
+            if not isinstance(tgt, ast.Name) and any(isinstance(n, (ast.Call, ast.Await, ast.NamedExpr, ast.IfExp, ast.BoolOp)) for n in ast.walk(tgt)):
+                # `x[f()] += v` evaluates f() once; reading and then storing through the target would evaluate it twice
+                if isinstance(tgt, ast.Subscript) and isinstance(tgt.value, ast.Name) and not isinstance(tgt.slice, ast.Slice):
+                    cont = self.ev(tgt.value, st)
+                    idx = self.ev(tgt.slice, st)
+                    cur = self.index(cont, idx, st, tgt)
+                    rhs = self.ev(node.value, st)
+                    v = self.binop(node.op, cur, rhs, st, node)
+                    self._unaliased(tgt.value, cont, st, 'item assignment')
+                    self.assign(tgt.value, self.store(cont, idx, v, st, tgt), st)
+                    return [(st, ('next',))]
+                raise Undecided('L%d: augmented assignment whose target contains a call' % node.lineno)
             cur = self.ev(_load(node.target), st)
             rhs = self.ev(node.value, st)
             v = self.binop(node.op, cur, rhs, st, node)
+            if isinstance(tgt, ast.Name) and isinstance(cur, (SList, tuple)):
+                self._unaliased(tgt, cur, st, 'in-place +=')
             self.assign(node.target, v, st)
             return [(st, ('next',))]
         if isinstance(node, ast.Return):
@@ -1022,7 +1094,7 @@ class Engine:
         if isinstance(node, ast.Continue):
             return [(st, ('continue',))]
         if isinstance(node, ast.Assert):
-            c = self.truthy(self.ev(node.test, st))
+            c = self.ev_cond(node.test, st)
             outs = []
             s_ok = st.fork()
             s_ok.assume(c)
@@ -1032,6 +1104,15 @@ class Engine:
                 s_bad.trace.append('L%d:assert-fails' % node.lineno)
                 e = SExc('AssertionError')
                 e.line = node.lineno
+                if node.msg is not None and not isinstance(node.msg, ast.Constant):
+                    was = getattr(self, 'in_spec', False)
+                    self.in_spec = True  # (no safety obligations for the message: the path raises in any case)
+                    try:
+                        self.ev(node.msg, s_bad)  # the message is evaluated when (and only when) the assertion fails
+                    except PyRaise as r:
+                        e = r.exc
+                    finally:
+                        self.in_spec = was
                 outs.append((s_bad, ('raise', e)))
             if feasible(s_ok.pc):
                 outs.append((s_ok, ('next',)))
@@ -1044,9 +1125,11 @@ class Engine:
                 return [(st, ('raise', e))]
             e = self.make_exc(node.exc, st)
             e.line = node.lineno
+            if node.cause is not None:
+                self.ev(node.cause, st)  # `raise X from Y`: Y is evaluated (it may call something, or raise itself)
             return [(st, ('raise', e))]
         if isinstance(node, ast.If):
-            c = self.truthy(self.ev(node.test, st))
+            c = self.ev_cond(node.test, st)
             outs = []
             s1 = st.fork()
             s1.assume(c)
@@ -1066,9 +1149,22 @@ class Engine:
         if isinstance(node, (ast.With, ast.AsyncWith)):
             return self.exec_with(node, st)
         if isinstance(node, (ast.FunctionDef, ast.AsyncFunctionDef)):
-            st.env[node.name] = ('localdef', node)
+            ignored = self.c.consts.get('__ignored_nested_decorators__', ())
+            if any(ast.unparse(d) not in ignored for d in node.decorator_list):
+                # a decorator replaces the function by whatever it returns (and evaluating it may have effects): not modelled,
+                # unless the contract lists the decorator text as one whose effect it models elsewhere
+                raise Undecided('L%d: nested function %s is decorated (%s)' % (node.lineno, node.name, ', '.join(ast.unparse(d) for d in node.decorator_list)))
+            # default values are evaluated once, when the def statement is executed
+            dvals = tuple(self.ev(d, st) for d in node.args.defaults)
+            st.env[node.name] = ('localdef', node, dvals)
             return [(st, ('next',))]
-        if isinstance(node, (ast.Import, ast.ImportFrom, ast.Global, ast.Nonlocal)):
+        if isinstance(node, (ast.Import, ast.ImportFrom)):
+            for al in node.names:
+                nm = (al.asname or al.name).split('.')[0]
+                if nm not in st.env:
+                    st.env[nm] = SDotted(nm)  # the imported name is bound (to the opaque module / object of that name)
+            return [(st, ('next',))]
+        if isinstance(node, (ast.Global, ast.Nonlocal)):
             return [(st, ('next',))]
         if isinstance(node, ast.Delete):
             for t in node.targets:
@@ -1079,7 +1175,7 @@ class Engine:
     def delete(self, t, st):
         if isinstance(t, ast.Name):
             if t.id not in st.env:
-                raise PyRaise(SExc('NameError'))
+                raise PyRaise(SExc('UnboundLocalError' if t.id in st.env.get('__locals__', ()) else 'NameError'))
             del st.env[t.id]  # a later read of the name is an unresolved name (SDotted), never the old value
             return
         if isinstance(t, (ast.Tuple, ast.List)):
@@ -1089,6 +1185,7 @@ class Engine:
         if isinstance(t, ast.Subscript):
             cont = self.ev(t.value, st)
             if isinstance(cont, SMap):
+                self._unaliased(t.value, cont, st, 'del of an item')
                 self.assign(t.value, self.map_remove(cont, self.ev(t.slice, st), st, t), st)
                 return
         raise Undecided('del not supported here: %s' % ast.unparse(t))
@@ -1100,10 +1197,19 @@ class Engine:
         return SMap(z3.Store(m.has, k, False), m.val, m.size - 1, m.kt, m.vt)
 
     def make_exc(self, node, st) -> SExc:
+        bare = node.func if isinstance(node, ast.Call) and not node.args and not node.keywords else node
+        if isinstance(bare, ast.Name) and bare.id in EXC_NAMES and bare.id not in st.env:
+            try:
+                getattr(builtins, bare.id)()
+            except TypeError:
+                return SExc('TypeError')  # a builtin exception class that cannot be instantiated without arguments
+            except Exception:
+                pass
         if isinstance(node, ast.Call):
             name = _dotted(node.func)
-            if name is not None:
-                return SExc(name.split('.')[-1], args=tuple(node.args))
+            if name is not None and isinstance(st.env.get(name, None) if '.' not in name else None, (type(None), SDotted)):
+                # the constructor's arguments are evaluated (left to right) before the exception exists
+                return SExc(name.split('.')[-1], args=tuple(self.ev(a_, st) for a_ in node.args if not isinstance(a_, ast.Starred)))
         if isinstance(node, ast.Name):
             v = st.env.get(node.id)
             if isinstance(v, SExc):
@@ -1153,10 +1259,29 @@ class Engine:
         if isinstance(target, ast.Subscript):
             cont = self.ev(target.value, st)
             idx = self.ev(target.slice, st)
+            self._unaliased(target.value, cont, st, 'item assignment')
             newc = self.store(cont, idx, v, st, target)
             self.assign(target.value, newc, st)
             return
         raise Undecided('assignment target %s' % ast.unparse(target))
+
+    def _unaliased(self, target, old, st, what):
+        """containers have value semantics here: changing one through a name while another name refers to the same object would
+        silently not change the other - refused (names bound by ghost code are snapshots by intention and do not count)"""
+        if not isinstance(target, ast.Name) or not isinstance(old, (SList, SMap, SDict, tuple)) or (isinstance(old, tuple) and not old):
+            return
+        ghosts = getattr(self, '_ghost_names', None)
+        if ghosts is None:
+            ghosts = set(self.c.ghost_init)
+            for g in self.c.ghosts:
+                ghosts |= set(_assigned_names(ast.parse(_dedent(g.code)).body))
+            self._ghost_names = ghosts
+        prog = getattr(self, '_prog_names', None)
+        if prog is None:
+            prog = self._prog_names = {n.id for n in ast.walk(self.fn) if isinstance(n, ast.Name)} | {a_.arg for a_ in ast.walk(self.fn) if isinstance(a_, ast.arg)}
+        for k_, v_ in st.env.items():
+            if k_ != target.id and v_ is old and k_ not in ghosts and k_ in prog:
+                raise Undecided('%s of %s while %s refers to the same object (aliasing of containers is not modelled)' % (what, target.id, k_))
 
     def store(self, cont, idx, v, st, node):
         if isinstance(cont, SMap):
@@ -1169,6 +1294,16 @@ class Engine:
             et = cont.et or type_of_value(v)
             arr = cont.arr if cont.arr is not None else z3.Const(fresh_name('arr'), z3.ArraySort(z3.IntSort(), sort_of(et)))
             i = to_z3(idx, 'int')
+            iz = z3.simplify(i)
+            if z3.is_int_value(iz):
+                if iz.as_long() < 0:
+                    i = cont.len + i  # x[-k] = v stores at len(x) - k
+            elif feasible(list(st.pc) + [i < 0], 500):
+                i = z3.If(i < 0, cont.len + i, i)
+            if cont.arr is None or cont.et is None:
+                raise PyRaise(SExc('IndexError'))  # item assignment into an empty list
+            if not getattr(self, 'in_spec', False) and isinstance(node, ast.Subscript):
+                self.oblige(st, 'safety/store-index-in-range@L%d' % getattr(node, 'lineno', 0), z3.And(i >= 0, i < cont.len), kind='safety')
             return SList(cont.len, z3.Store(arr, i, to_z3(v, et)), et)
         if isinstance(cont, z3.ArrayRef):
             return z3.Store(cont, to_z3(idx), to_z3(v, _type_of_sort(cont.sort().range())))
@@ -1218,6 +1353,8 @@ class Engine:
                 L = E
             else:
                 raise Undecided('for-loop iterable %s' % ast.unparse(node.iter))
+            if isinstance(node.iter, ast.Name) and node.iter.id in set(_assigned_names(node.body)):
+                raise Undecided('for loop #%d changes the container it iterates over (%s)' % (ordinal, node.iter.id))
             if spec.index is None:
                 raise Undecided('for loop #%d needs an index name in its LoopSpec' % ordinal)
             st.env[spec.index] = z3.IntVal(0)
@@ -1251,6 +1388,12 @@ class Engine:
                         h.assume(w)
                 continue
             if name not in h.env:
+                if name in h.env.get('__locals__', ()):
+                    # not bound before the loop: at the head of an arbitrary iteration, and after the loop, it may or may not
+                    # be bound - reading it before the body assigns it cannot be decided
+                    h.env[name] = MAYBE_UNBOUND
+                continue
+            if h.env[name] is MAYBE_UNBOUND:
                 continue
             t = self.c.types.get(name)
             nv = fresh_value(parse_type(t), name) if t else self.havoc_like(h.env[name], name)
@@ -1274,7 +1417,7 @@ class Engine:
             elem = from_z3(z3.Select(L.arr, k), L.et) if isinstance(L, SList) else (L[1] + k * L[3])
             self.assign(node.target, elem, body)
         else:
-            body.assume(self.truthy(self.ev(node.test, body)))
+            body.assume(self._loop_test(node, body))
         if feasible(body.pc):
             body.trace.append('iter')
             self.ctx.add(core.satisfiable('%s/%s/vacuity/body-reachable' % (self.label, tag), list(body.pc)))
@@ -1305,7 +1448,7 @@ class Engine:
         if is_for:
             ex.assume(ex.env[spec.index] >= n_iter)
         else:
-            ex.assume(z3.Not(self.truthy(self.ev(node.test, ex))))
+            ex.assume(z3.Not(self._loop_test(node, ex)))
         if feasible(ex.pc):
             ex.trace.append('loop-exit')
             if node.orelse:
@@ -1313,6 +1456,14 @@ class Engine:
             else:
                 outs.append((ex, ('next',)))
         return outs
+
+    def _loop_test(self, node, st):
+        try:
+            return self.ev_cond(node.test, st)
+        except Fork:
+            # a split would re-execute the whole loop statement from the state before the loop, with the effects of the chosen
+            # outcome applied there - not at the arbitrary iteration the test is evaluated in
+            raise Undecided('L%d: the test of a while loop splits the path (call model with several outcomes, short-circuit operand that raises)' % node.lineno)
 
     def range_len(self, r):
         _, lo, hi, step = r
@@ -1384,6 +1535,8 @@ class Engine:
         res = []
         for s2, oc in self.exec_block(h.body, st):
             s2.env['__current_exc__'] = prev
+            if h.name:
+                s2.env.pop(h.name, None)  # `except E as name`: the name is deleted when the handler is left
             res.append((s2, oc))
         return res
 
@@ -1456,6 +1609,8 @@ class Engine:
             return z3.BoolVal(bool(v))
         if isinstance(v, SList):
             return v.len > 0
+        if isinstance(v, tuple) and v and isinstance(v[0], str) and v[0] == 'range':
+            return self.range_len(v) > 0
         if isinstance(v, tuple):
             return z3.BoolVal(len(v) > 0)
         if isinstance(v, z3.ExprRef):
@@ -1468,11 +1623,16 @@ class Engine:
             if v.sort() == z3.StringSort():
                 return z3.Length(v) > 0
             if v.sort() == U:
-                return self.uf('truthy', ['U'], 'bool')(v)
+                return self.uf('truthy', ['U'], 'bool')(v)  # (None is false: a hypothesis of every obligation, see oblige)
         if isinstance(v, SDict):
             return v.items.len > 0
         if isinstance(v, SMap):
             return v.size > 0
+        if isinstance(v, SRecord) and v.cls == 'dict':
+            keys = [k for k in v.fields if not k.startswith('has_')]
+            if any('has_' + k not in v.fields for k in keys):
+                return z3.BoolVal(True)
+            return z3.Or(*[self.truthy(v.fields['has_' + k]) for k in keys]) if keys else z3.BoolVal(False)  # {} is false
         if isinstance(v, SRecord):
             return z3.BoolVal(True)
         if isinstance(v, SFrac):
@@ -1500,9 +1660,18 @@ class Engine:
 
     def ev_Name(self, node, st):
         if node.id in st.env:
-            return st.env[node.id]
+            v = st.env[node.id]
+            if v is MAYBE_UNBOUND:
+                raise Undecided('L%s: %s is bound only inside a loop (unbound if the loop body never assigns it)' % (getattr(node, 'lineno', '?'), node.id))
+            return v
         if node.id in ('True', 'False', 'None'):
             return {'True': True, 'False': False, 'None': None}[node.id]
+        if node.id in st.env.get('__locals__', ()) and not getattr(self, 'in_spec', False):
+            # a local variable of the function that is not bound on this path (never assigned yet, deleted, or the name of an
+            # exception handler after the handler): Python raises, it does not fall back to a global of that name
+            e = SExc('UnboundLocalError')
+            e.line = getattr(node, 'lineno', None)
+            raise PyRaise(e)
         return SDotted(node.id)
 
     def ev_Attribute(self, node, st):
@@ -1526,6 +1695,8 @@ class Engine:
         if isinstance(base, SExc):
             if base.term is not None:
                 return self.attr_of_U(base.term, attr)
+            if attr == 'args':
+                return tuple(base.args)
             return ('boundmethod', base, attr)
         if isinstance(base, z3.ExprRef) and base.sort() == U:
             return self.attr_of_U(base, attr)
@@ -1540,24 +1711,83 @@ class Engine:
         tt = parse_type(t)
         return from_z3(self.uf('attr_' + attr, ['U'], t)(term), tt)
 
-    def ev_BoolOp(self, node, st):
+    def ev_cond(self, node, st):
+        """truth value of an expression in a position where only its truth matters (if / while / assert tests, `not`, the
+        test of a conditional expression, contract clauses)"""
+        if isinstance(node, ast.BoolOp):
+            return self.ev_BoolOp(node, st, truth_only=True)
+        if isinstance(node, ast.UnaryOp) and isinstance(node.op, ast.Not):
+            return z3.Not(self.ev_cond(node.operand, st))
+        return self.truthy(self.ev(node, st))
+
+    def _split_keys(self, node, n):
+        """one path-split marker per operand of a short-circuit expression (the marker, not the operand node, keys the decision:
+        the operand may be a call that is itself split)"""
+        ks = getattr(node, '_pyvc_split_keys', None)
+        if ks is None:
+            ks = node._pyvc_split_keys = [_SplitKey(getattr(node, 'lineno', '?')) for _ in range(n)]
+        return ks
+
+    def ite_value(self, c, a, b):
+        """the value `a if c else b` of two already evaluated values"""
+        if a is b or (a is None and b is None):
+            return a
+        cs = z3.simplify(c)
+        if z3.is_true(cs):
+            return a
+        if z3.is_false(cs):
+            return b
+        ta = type_of_value(a)
+        tb = type_of_value(b)
+        t = ta if ta == tb else ('real' if {ta, tb} <= {'int', 'real'} else ('int' if {ta, tb} <= {'int', 'bool'} else None))
+        if t is None and 'U' in (ta, tb) and (isinstance(a, (str, SDotted)) or a is None or isinstance(b, (str, SDotted)) or b is None):
+            t = 'U'
+        if t is None or (isinstance(a, tuple) and a and isinstance(a[0], str)) or (isinstance(b, tuple) and b and isinstance(b[0], str)) or isinstance(a, (SRecord, SMap, SDict)) or isinstance(b, (SRecord, SMap, SDict)):
+            raise Undecided('value of a short-circuit expression whose operands have different types (%s / %s)' % (type_key(ta) if ta else ta, type_key(tb) if tb else tb))
+        return from_z3(z3.If(c, to_z3(a, t), to_z3(b, t)), t)
+
+    def ev_BoolOp(self, node, st, truth_only=False):
         # short-circuit: operand k is evaluated (and its safety obligations are generated) under the assumption
         # that the previous operands did not already decide the result
+        is_and = isinstance(node.op, ast.And)
+        in_spec = getattr(self, 'in_spec', False)
         s2 = State(st.env, list(st.pc))
         s2.decided = st.decided
         s2.decided_used = st.decided_used
         s2.trace = st.trace
         vals = []
+        raws = []
         guards = []
-        for v in node.values:
+        keys = self._split_keys(node, len(node.values))
+        for k, v in enumerate(node.values):
             before = len(s2.pc)
-            if guards:
+            sub = (lambda n_, s_: self.ev_cond(n_, s_)) if truth_only else (lambda n_, s_: self.ev(n_, s_))
+            if guards and id(keys[k]) in st.decided:
+                # the statement is re-executed for one side of a split on "is this operand evaluated at all" (see below)
+                go = st.take_decided(keys[k])[1]
+                g_all = z3.And(*guards)
+                if not go:
+                    st.assume(z3.Not(g_all))
+                    break
+                st.assume(g_all)
+                guards = []
+                raw = sub(v, s2)
+            elif guards:
                 # an operand that Python may skip: its side effects on the environment (made by call models) apply only
                 # under the guards - evaluate on a copy and merge the changed entries conditionally
                 env0 = st.env
                 s2.env = dict(env0)
-                t = self.truthy(self.ev(v, s2))
                 g_all = z3.And(*guards)
+                try:
+                    raw = sub(v, s2)
+                except (Fork, PyRaise):
+                    if in_spec:
+                        raise
+                    # the operand raises, or its evaluation splits the path (a call model with several outcomes): both happen
+                    # only if the operand is evaluated - split the path on that first, then the operand is evaluated (or not)
+                    # unconditionally
+                    s2.env = env0
+                    raise Fork(keys[k], [('operand%d-skipped' % k, z3.Not(g_all), 'boolop', False), ('operand%d-evaluated' % k, g_all, 'boolop', True)])
                 for key, nv in s2.env.items():
                     ov = env0.get(key)
                     if nv is ov or _same_value(nv, ov):
@@ -1571,30 +1801,45 @@ class Engine:
                             merged = z3.If(g_all, to_z3(nv, 'int'), to_z3(ov, 'int'))
                     except Undecided:
                         merged = None
-                    if merged is None:
-                        raise Undecided('side effect on %r inside a short-circuit operand cannot be merged' % key)
+                    if merged is None or key not in env0:
+                        if in_spec:
+                            raise Undecided('side effect on %r inside a short-circuit operand cannot be merged' % key)
+                        s2.env = env0
+                        raise Fork(keys[k], [('operand%d-skipped' % k, z3.Not(g_all), 'boolop', False), ('operand%d-evaluated' % k, g_all, 'boolop', True)])
                     env0[key] = merged
                 s2.env = env0
             else:
-                t = self.truthy(self.ev(v, s2))
+                raw = sub(v, s2)
+            t = raw if truth_only else self.truthy(raw)
             # facts assumed by call models while evaluating this operand (e.g. a clock reading) hold whenever the operand is
             # evaluated at all, i.e. under the short-circuit guards: keep them in the caller's path condition
             for fact in s2.pc[before:]:
                 st.assume(z3.Implies(z3.And(*guards), fact) if guards else fact)
             vals.append(t)
+            raws.append(raw)
             ts = z3.simplify(t)
-            if (isinstance(node.op, ast.And) and z3.is_false(ts)) or (isinstance(node.op, ast.Or) and z3.is_true(ts)):
+            if (is_and and z3.is_false(ts)) or (not is_and and z3.is_true(ts)):
                 break  # decided by a concrete operand: Python does not evaluate the rest
-            g = t if isinstance(node.op, ast.And) else z3.Not(t)
+            g = t if is_and else z3.Not(t)
             guards.append(g)
             s2.pc.append(g)
-        return z3.And(*vals) if isinstance(node.op, ast.And) else z3.Or(*vals)
+        if truth_only or all(isinstance(r, bool) or (isinstance(r, z3.ExprRef) and z3.is_bool(r)) for r in raws):
+            return z3.And(*vals) if is_and else z3.Or(*vals)
+        # `x and y` / `x or y` return one of their operands, not a truth value
+        res = raws[-1]
+        for k in range(len(raws) - 2, -1, -1):
+            res = self.ite_value(vals[k], res, raws[k]) if is_and else self.ite_value(vals[k], raws[k], res)
+        return res
 
     def ev_UnaryOp(self, node, st):
+        if isinstance(node.op, ast.Not):
+            return z3.Not(self.ev_cond(node.operand, st))
         v = self.ev(node.operand, st)
         if isinstance(node.op, ast.Not):
-            return z3.Not(self.truthy(v))
+            return z3.Not(self.truthy(v))  # (not reached: `not` is evaluated by ev_cond below)
         if isinstance(node.op, ast.USub):
+            if isinstance(v, z3.ExprRef) and z3.is_bool(v):
+                return -self.num(v)
             return -v if not isinstance(v, bool) else -int(v)
         if isinstance(node.op, ast.UAdd):
             return v
@@ -1602,9 +1847,14 @@ class Engine:
 
     def ev_IfExp(self, node, st):
         if id(node) in st.decided:
-            # the statement is being re-executed for one alternative of the split below: only that branch is evaluated
-            return self.ev(node.body if st.take_decided(node)[1] else node.orelse, st)
-        c = self.truthy(self.ev(node.test, st))
+            # the statement is being re-executed for one alternative of the split below: the test is evaluated again (the
+            # re-execution starts from the state before the statement, so what evaluating the test does to the state has to
+            # happen again) and only the chosen branch is evaluated
+            taken = st.take_decided(node)[1]
+            c = self.ev_cond(node.test, st)
+            st.assume(c if taken else z3.Not(c))
+            return self.ev(node.body if taken else node.orelse, st)
+        c = self.ev_cond(node.test, st)
         cs = z3.simplify(c)
         if z3.is_true(cs):
             return self.ev(node.body, st)  # Python evaluates only the branch taken
@@ -1624,7 +1874,12 @@ class Engine:
             s2.decided_used = st.decided_used
             s2.trace = st.trace
             n0 = len(s2.pc)
-            outs.append(self.ev(br, s2))
+            try:
+                outs.append(self.ev(br, s2))
+            except PyRaise:
+                # the branch raises (a constant index out of range, a division by a literal zero): that happens only if the
+                # branch is taken - split the path as for a branch that calls something
+                raise Fork(node, [('ifexp-then', c, 'ifexp', True), ('ifexp-else', z3.Not(c), 'ifexp', False)])
             for fact in s2.pc[n0:]:
                 st.assume(z3.Implies(g, fact))
         a, b = outs
@@ -1640,7 +1895,39 @@ class Engine:
     def ev_Compare(self, node, st):
         left = self.ev(node.left, st)
         out = []
-        for op, rn in zip(node.ops, node.comparators):
+        for k, (op, rn) in enumerate(zip(node.ops, node.comparators)):
+            if k >= 1 and not isinstance(rn, (ast.Name, ast.Constant)) and not getattr(self, 'in_spec', False):
+                # a < b < f(): the later operands of a chained comparison are evaluated only if the comparisons before them hold
+                g_all = z3.And(*out)
+                gs = z3.simplify(g_all)
+                if z3.is_false(gs):
+                    break
+                if not z3.is_true(gs):
+                    key = self._split_keys(node, len(node.ops))[k]
+                    split = Fork(key, [('comparand%d-skipped' % k, z3.Not(g_all), 'compare', False), ('comparand%d-evaluated' % k, g_all, 'compare', True)])
+                    if id(key) in st.decided:
+                        if not st.take_decided(key)[1]:
+                            st.assume(z3.Not(g_all))
+                            break
+                        st.assume(g_all)
+                        right = self.ev(rn, st)
+                    else:
+                        # evaluated under the guard on a scratch state; if that raises, splits the path or changes the
+                        # environment, the path is split on the guard first
+                        s2 = State(dict(st.env), list(st.pc) + [g_all])
+                        s2.decided, s2.decided_used, s2.trace = st.decided, st.decided_used, st.trace
+                        n0 = len(s2.pc)
+                        try:
+                            right = self.ev(rn, s2)
+                        except (Fork, PyRaise):
+                            raise split
+                        if any(v_ is not st.env.get(k_) and not _same_value(v_, st.env.get(k_)) for k_, v_ in s2.env.items()) or len(s2.env) != len(st.env):
+                            raise split
+                        for fact in s2.pc[n0:]:
+                            st.assume(z3.Implies(g_all, fact))
+                    out.append(self.compare(op, left, right, st))
+                    left = right
+                    continue
             right = self.ev(rn, st)
             out.append(self.compare(op, left, right, st))
             left = right
@@ -1763,7 +2050,7 @@ class Engine:
             cont = tuple(cont.keys())
         if isinstance(cont, frozenset):
             cont = tuple(sorted(cont, key=repr))
-        if isinstance(cont, (tuple, list)) and not (cont and cont[0] == 'range'):
+        if isinstance(cont, (tuple, list)) and not (cont and isinstance(cont[0], str) and cont[0] == 'range'):
             return z3.Or(*[self.equal(x, y) for y in cont]) if cont else z3.BoolVal(False)
         if isinstance(cont, SList):
             j = z3.Int(fresh_name('in_j'))
@@ -1800,6 +2087,10 @@ class Engine:
                 return r
             except KeyError:
                 raise Undecided('binary operator %s' % type(op).__name__)
+            except ZeroDivisionError:
+                raise PyRaise(SExc('ZeroDivisionError'))
+            except (ValueError, OverflowError, TypeError) as e_:
+                raise Undecided('constant arithmetic raises %s' % type(e_).__name__)
         if isinstance(op, ast.Add) and isinstance(a, SList) and isinstance(b, SList):
             return self.concat([a, b])
         if isinstance(op, ast.Add) and isinstance(a, tuple) and isinstance(b, tuple):
@@ -2061,6 +2352,8 @@ class Engine:
             iz = z3.simplify(i)
             if z3.is_int_value(iz) and iz.as_long() < 0:
                 i = cont.len + i
+            elif not z3.is_int_value(iz) and not getattr(self, 'in_spec', False) and node is not None and feasible(list(st.pc) + [i < 0], 500):
+                i = z3.If(i < 0, cont.len + i, i)  # an index that can be negative on this path counts from the end
             if cont.arr is None:
                 raise PyRaise(SExc('IndexError'))
             if not getattr(self, 'in_spec', False) and node is not None:
@@ -2091,6 +2384,12 @@ class Engine:
         return SList(ln, z3.Lambda([i], z3.Select(cont.arr, i + lo)), cont.et)
 
     def ev_GeneratorExp(self, node, st):
+        try:
+            return self._ev_GeneratorExp(node, st)
+        except Fork:
+            raise Undecided('generator expression with a call model of several outcomes inside it (a generator is evaluated lazily, by its consumer)')
+
+    def _ev_GeneratorExp(self, node, st):
         """a generator over a LITERAL list/tuple whose filters are decided concretely per element on the current path
         (e.g. `c for c in [a, b] if c is not None` with a, b each either None or a number): the tuple of kept elements"""
         if len(node.generators) != 1 or node.generators[0].is_async or not isinstance(node.generators[0].iter, (ast.List, ast.Tuple)):
@@ -2101,6 +2400,7 @@ class Engine:
             v = self.ev(e, st)
             s2 = st.fork()
             self.assign(g.target, v, s2)
+            before = dict(s2.env)
             keep = True
             for cnd in g.ifs:
                 t = z3.simplify(self.truthy(self.ev(cnd, s2)))
@@ -2112,7 +2412,34 @@ class Engine:
                 raise Undecided('generator filter not decided on this path: %s' % ast.unparse(cnd))
             if keep:
                 out.append(self.ev(node.elt, s2))
+            for k_, v_ in s2.env.items():
+                if not (k_ in before and (v_ is before[k_] or _same_value(v_, before[k_]))):
+                    raise Undecided('generator expression changes %r (effects of call models inside it are not carried over; a generator is also evaluated lazily)' % k_)
+            for fact in s2.pc[len(st.pc):]:
+                st.assume(fact)
         return tuple(out)
+
+    def _elementwise(self, fn, s2, i, n, what):
+        """evaluate fn() once for the arbitrary element number i (0 <= i < n) of a comprehension / generator: sound only if the
+        evaluation has no effect on the state and does not raise or split the path - otherwise refused"""
+        if i is not None:
+            s2.assume(z3.And(i >= 0, i < n))
+        before = dict(s2.env)
+        was = getattr(self, 'in_spec', False)
+        self.in_spec = True
+        try:
+            v = fn()
+        except Fork:
+            raise Undecided('%s: a call model with several outcomes inside it' % what)
+        except PyRaise as r:
+            raise Undecided('%s raises %s' % (what, r.exc))
+        finally:
+            self.in_spec = was
+        for k_, v_ in s2.env.items():
+            if k_ in before and (v_ is before[k_] or _same_value(v_, before[k_])):
+                continue
+            raise Undecided('%s changes %r (an effect of a call model would be applied once instead of once per element)' % (what, k_))
+        return v
 
     def ev_ListComp(self, node, st):
         if len(node.generators) != 1 or node.generators[0].ifs or node.generators[0].is_async:
@@ -2126,12 +2453,7 @@ class Engine:
         i = z3.Int(fresh_name('comp_i'))
         s2 = st.fork()
         self.assign(g.target, from_z3(z3.Select(it.arr, i), it.et), s2)
-        was = getattr(self, 'in_spec', False)
-        self.in_spec = True
-        try:
-            v = self.ev(node.elt, s2)
-        finally:
-            self.in_spec = was
+        v = self._elementwise(lambda: self.ev(node.elt, s2), s2, i, it.len, 'comprehension element')
         et = type_of_value(v)
         return SList(it.len, z3.Lambda([i], to_z3(v, et)), et)
 
@@ -2150,18 +2472,16 @@ class Engine:
         i = z3.Int(fresh_name('sc_i'))
         s2 = st.fork()
         self.assign(g.target, from_z3(z3.Select(it.arr, i), it.et), s2)
-        was = getattr(self, 'in_spec', False)
-        self.in_spec = True
-        try:
-            v = self.ev(node.elt, s2)
-        finally:
-            self.in_spec = was
+        v = self._elementwise(lambda: self.ev(node.elt, s2), s2, i, it.len, 'set comprehension element')
         has = z3.Lambda([k], z3.Exists([i], z3.And(0 <= i, i < it.len, to_z3(v, 'U') == k)))
         st.assume(z3.And(size >= 0, size <= it.len))
         return SMap(has, z3.K(U, z3.BoolVal(True)), size, 'U', 'bool')
 
     def ev_JoinedStr(self, node, st):
         if not self.c.strings:
+            for v in ast.walk(node):
+                if isinstance(v, ast.FormattedValue) and not getattr(self, 'in_spec', False) and any(isinstance(n, (ast.Call, ast.Await, ast.NamedExpr, ast.Subscript)) or (isinstance(n, ast.BinOp) and isinstance(n.op, (ast.Div, ast.FloorDiv, ast.Mod))) for n in ast.walk(v.value)):
+                    self.ev(v.value, st)  # the text is opaque, but evaluating a part may call something or raise
             return z3.Const(fresh_name('fstring'), U)
         parts = []
         for v in node.values:
@@ -2206,7 +2526,7 @@ class Engine:
         v = self.ev(node.value, st)
         hook = self.c.calls.get('await')
         if hook is not None:
-            return hook(self, st, [v], {}, node)  # may raise Fork(node, ...) for a suspending await
+            return self._call_model(hook, st, [v], {}, node)  # may raise Fork(node, ...) for a suspending await
         return v
 
     def ev_NamedExpr(self, node, st):
@@ -2215,7 +2535,7 @@ class Engine:
         return v
 
     def ev_Lambda(self, node, st):
-        return ('lambda', node, dict(st.env))
+        return ('lambda', node, dict(st.env), tuple(self.ev(d, st) for d in node.args.defaults))
 
     def ev_Starred(self, node, st):
         raise Undecided('starred expression')
@@ -2255,12 +2575,7 @@ class Engine:
                 s2 = st.fork()
                 elem = from_z3(z3.Select(m.val, q), m.vt) if (isinstance(it, tuple) and it[0] == 'mapvalues') else from_z3(q, m.kt)
                 self.assign(g.generators[0].target, elem, s2)
-                was = getattr(self, 'in_spec', False)
-                self.in_spec = True
-                try:
-                    body = self.truthy(self.ev(g.elt, s2))
-                finally:
-                    self.in_spec = was
+                body = self._elementwise(lambda: self.truthy(self.ev(g.elt, s2)), s2, None, None, 'all/any element')
                 rng = z3.Select(m.has, q)
                 return z3.ForAll([q], z3.Implies(rng, body)) if fname == 'all' else z3.Exists([q], z3.And(rng, body))
             if not isinstance(it, SList):
@@ -2270,12 +2585,7 @@ class Engine:
             i = z3.Int(fresh_name('gen_i'))
             s2 = st.fork()
             self.assign(g.generators[0].target, from_z3(z3.Select(it.arr, i), it.et), s2)
-            was = getattr(self, 'in_spec', False)
-            self.in_spec = True
-            try:
-                body = self.truthy(self.ev(g.elt, s2))
-            finally:
-                self.in_spec = was
+            body = self._elementwise(lambda: self.truthy(self.ev(g.elt, s2)), s2, i, it.len, 'all/any element')
             rng = z3.And(i >= 0, i < it.len)
             return z3.ForAll([i], z3.Implies(rng, body)) if fname == 'all' else z3.Exists([i], z3.And(rng, body))
         if fname == 'bit' and len(node.args) == 2:
@@ -2316,12 +2626,12 @@ class Engine:
         if fname is not None and fname in self.c.calls:
             args = [self.ev_lenient(a, st) for a in node.args]
             kw = {k.arg: self.ev_lenient(k.value, st) for k in node.keywords if k.arg is not None}
-            return self.c.calls[fname](self, st, args, kw, node)
+            return self._call_model(self.c.calls[fname], st, args, kw, node)
         if fname is not None and fname in self.callees:
             args = [self.ev(a, st) for a in node.args]
             kw = {k.arg: self.ev(k.value, st) for k in node.keywords}
             return self.call_contract(self.callees[fname], args, kw, st, node)
-        func = self.ev(node.func, st) if not isinstance(node.func, ast.Name) or node.func.id in st.env else SDotted(node.func.id)
+        func = self.ev(node.func, st) if not isinstance(node.func, ast.Name) or node.func.id in st.env or node.func.id in st.env.get('__locals__', ()) else SDotted(node.func.id)
         if isinstance(func, SFunc):
             was = getattr(self, 'in_spec', False)
             self.in_spec = True
@@ -2336,15 +2646,78 @@ class Engine:
         if isinstance(func, tuple) and func and func[0] == 'localdef':
             return self.call_localdef(func[1], node, st)
         if isinstance(func, tuple) and func and func[0] == 'lambda':
-            lam, env = func[1], func[2]
-            s2 = State(dict(env), st.pc)
-            s2.decided, s2.decided_used, s2.trace = st.decided, st.decided_used, st.trace
-            for p, a in zip(lam.args.args, node.args):
-                s2.env[p.arg] = self.ev(a, st)
-            return self.ev(lam.body, s2)
+            return self.call_lambda(func, node, st)
         if isinstance(func, SDotted):
             return self.call_builtin(func.name, node, st)
         raise Undecided('call of %r' % (func,))
+
+    def _call_model(self, model, st, args, kw, node):
+        """call a contract-supplied model; what the model did to the state before it split the path (raise Fork) is part of
+        every outcome of the split: the statement is re-executed from the state before it, where the model is not called again"""
+        before = {k_: (v_.clone() if isinstance(v_, SRecord) else v_) for k_, v_ in st.env.items()}
+        try:
+            return model(self, st, args, kw, node)
+        except Fork as f:
+            delta = {}
+            for k_, v_ in st.env.items():
+                b_ = before.get(k_, before)
+                if b_ is before or (isinstance(v_, SRecord) and isinstance(b_, SRecord) and (v_.fields.keys() != b_.fields.keys() or any(v_.fields[x] is not b_.fields[x] for x in v_.fields))) or (not isinstance(v_, SRecord) and b_ is not v_):
+                    delta[k_] = v_
+            gone = [k_ for k_ in before if k_ not in st.env]
+            if delta or gone:
+                def wrap(alt):
+                    eff = alt[4] if len(alt) > 4 else None
+
+                    def apply(s, eff=eff):
+                        for k_, v_ in delta.items():
+                            s.env[k_] = v_.clone() if isinstance(v_, SRecord) else v_
+                        for k_ in gone:
+                            s.env.pop(k_, None)
+                        if eff is not None:
+                            eff(s)
+
+                    return tuple(alt[:4]) + (apply,)
+
+                f.alts = [wrap(x) for x in f.alts]
+            raise
+
+    def call_lambda(self, func, node, st):
+        lam, cenv = func[1], func[2]
+        a = lam.args
+        if a.vararg or a.kwarg or a.kwonlyargs or any(isinstance(n, (ast.NamedExpr, ast.Yield, ast.YieldFrom, ast.Await)) for n in ast.walk(lam.body)):
+            raise Undecided('lambda with *args / **kwargs / keyword-only parameters, or binding names in its body')
+        names = [x.arg for x in a.posonlyargs + a.args]
+        vals = [self.ev(x, st) for x in node.args]
+        if any(k.arg is None for k in node.keywords):
+            raise Undecided('call of a lambda with **kwargs')
+        kws = {k.arg: self.ev(k.value, st) for k in node.keywords}
+        if len(vals) > len(names) or any(k_ not in names for k_ in kws) or any(k_ in names[:len(vals)] for k_ in kws):
+            raise PyRaise(SExc('TypeError'))
+        dvals = func[3] if len(func) > 3 else tuple(self.ev(d, st) for d in a.defaults)
+        bound = dict(zip(names[len(names) - len(dvals):], dvals))
+        bound.update(zip(names, vals))
+        bound.update(kws)
+        if any(n_ not in bound for n_ in names):
+            raise PyRaise(SExc('TypeError'))
+        # closure: the body sees the CURRENT values of the enclosing variables (late binding); a lambda called outside the
+        # scope that created it keeps that scope's variables, as long as the name does not mean something else here
+        same_scope = cenv.get('__locals__') is st.env.get('__locals__')
+        env = dict(st.env)
+        for n_ in {n.id for n in ast.walk(lam.body) if isinstance(n, ast.Name)} - set(names):
+            if n_ in cenv:
+                if n_ not in env:
+                    env[n_] = cenv[n_]
+                elif not same_scope and env[n_] is not cenv[n_] and not _same_value(env[n_], cenv[n_]):
+                    raise Undecided('lambda called outside the scope that created it, and %s differs between the two' % n_)
+        env.update(bound)
+        s2 = State(env, st.pc)
+        s2.decided, s2.decided_used, s2.trace = st.decided, st.decided_used, st.trace
+        v = self.ev(lam.body, s2)
+        for k_, v_ in s2.env.items():
+            # what call models evaluated in the body did to the (ghost) state is the caller's state now
+            if k_ not in bound and k_ in st.env and v_ is not st.env[k_]:
+                st.env[k_] = v_
+        return v
 
     def call_localdef(self, fn, node, st, allow_async=False):
         """call of a nested `def`: its real body is executed in a child state that sees the enclosing variables; every outcome
@@ -2357,19 +2730,39 @@ class Engine:
         if a.vararg or a.kwarg or a.kwonlyargs:
             raise Undecided('nested function %s with *args/**kwargs' % fn.name)
         names = [x.arg for x in a.posonlyargs + a.args]
+        # the arguments are evaluated in the caller's state BEFORE the callee's state is derived from it (what evaluating them
+        # does to the path condition and to ghost state is visible in the callee)
+        vals = [self.ev(x, st) for x in node.args]
+        if any(k.arg is None for k in node.keywords):
+            raise Undecided('call of nested function %s with **kwargs' % fn.name)
+        kws = {k.arg: self.ev(k.value, st) for k in node.keywords}
+        if len(vals) > len(names) or any(k_ not in names for k_ in kws) or any(k_ in names[:len(vals)] for k_ in kws):
+            raise PyRaise(SExc('TypeError'))
+        defaults = a.defaults
+        dvals = None
+        for v_ in st.env.values():
+            if isinstance(v_, tuple) and len(v_) == 3 and v_[0] == 'localdef' and v_[1] is fn:
+                dvals = v_[2]  # evaluated when the def statement ran
+        if dvals is None:
+            dvals = [self.ev(d, st) for d in defaults]
         child = State(dict(st.env), list(st.pc))
         child.trace = list(st.trace)
-        vals = [self.ev(x, st) for x in node.args]
-        kws = {k.arg: self.ev(k.value, st) for k in node.keywords}
-        defaults = a.defaults
-        for n_, d in zip(names[len(names) - len(defaults):], defaults):
-            child.env[n_] = self.ev(d, st)
+        stored = {n.id for stmt in fn.body for n in ast.walk(stmt) if isinstance(n, ast.Name) and isinstance(n.ctx, (ast.Store, ast.Del))}
+        for n_ in (stored | _local_names(fn)) - nonlocals - set(names):
+            child.env.pop(n_, None)  # the callee's own locals start unbound (they shadow the enclosing variables of that name)
+        child.env['__locals__'] = frozenset((_local_names(fn) | set(names)) - nonlocals)
+        bound = set()
+        for n_, d in zip(names[len(names) - len(defaults):], dvals):
+            child.env[n_] = d
+            bound.add(n_)
         for n_, v in zip(names, vals):
             child.env[n_] = v
+            bound.add(n_)
         for k_, v in kws.items():
             child.env[k_] = v
-        if any(n_ not in child.env for n_ in names):
-            raise Undecided('call of nested function %s: missing argument' % fn.name)
+            bound.add(k_)
+        if any(n_ not in bound for n_ in names):
+            raise PyRaise(SExc('TypeError'))  # missing argument
         depth = getattr(self, '_ld_depth', 0)
         if depth > 12:
             raise Undecided('nested function recursion')
@@ -2380,8 +2773,7 @@ class Engine:
             self._ld_depth = depth
         # variables of the enclosing scope the nested function can change: those it declares nonlocal, and containers it
         # mutates in place (the executor rebinds the name on append/extend/...); its own parameters and locals stay private
-        stored = {n.id for stmt in fn.body for n in ast.walk(stmt) if isinstance(n, ast.Name) and isinstance(n.ctx, (ast.Store, ast.Del))}
-        own = set(names) | (stored - nonlocals)
+        own = set(names) | (stored - nonlocals) | {'__locals__'}
         shared_names = [n_ for n_ in st.env if n_ not in own]
 
         def writeback(sub):
@@ -2409,9 +2801,14 @@ class Engine:
             return alts[0][3]
         raise Fork(node, alts)
 
-    def ev_lenient(self, a, st):
+    def ev_lenient(self, a, st, strict=False):
         if isinstance(a, ast.Starred):
-            return ('*', None)
+            try:
+                return ('*', self.ev(a.value, st))  # the unpacked expression is evaluated even if the callee does not look at it
+            except Undecided:
+                if strict:
+                    raise
+                return ('*', None)  # a contract-supplied model gets the call node and has to deal with the argument list itself
         return self.ev(a, st)
 
     def call_contract(self, cc: Contract, args, kw, st, node):
@@ -2466,7 +2863,16 @@ class Engine:
         return z3.ForAll(vars_, body) if kind == 'forall' else z3.Exists(vars_, body)
 
     def call_builtin(self, name, node, st):
-        args = [self.ev_lenient(a, st) for a in node.args]
+        args = []
+        for a_ in node.args:
+            v_ = self.ev_lenient(a_, st, strict=True)
+            if isinstance(a_, ast.Starred) and isinstance(v_[1], tuple) and not (v_[1] and isinstance(v_[1][0], str)):
+                args.extend(v_[1])  # f(*(x, y)) with a tuple of known length
+            else:
+                args.append(v_)
+        kws = {k.arg: self.ev(k.value, st) for k in node.keywords}  # evaluated (once) whether or not the model below uses them
+        if kws and name in ('len', 'abs', 'divmod', 'int', 'float', 'round', 'bool', 'range', 'enumerate', 'set', 'frozenset', 'sorted', 'cast', 'typing.cast', 'str', 'math.ceil', 'math.floor', 'list', 'tuple'):
+            raise Undecided('keyword arguments of %s() are not modelled' % name)
         if any(isinstance(a, tuple) and a and isinstance(a[0], str) and a[0] == '*' for a in args):
             # f(*xs): only an unmodelled callee tolerates an unexpanded argument list (its result is havocked anyway)
             self.unmodelled.append(name)
@@ -2479,6 +2885,10 @@ class Engine:
                 return v.items.len
             if isinstance(v, SList):
                 return v.len
+            if isinstance(v, tuple) and v and isinstance(v[0], str) and v[0] == 'range':
+                return self.range_len(v)
+            if isinstance(v, tuple) and v and isinstance(v[0], str) and v[0] in ('boundmethod', 'lambda', 'localdef', 'mapvalues', 'mapkeys', '*'):
+                raise Undecided('len of %s' % v[0])
             if isinstance(v, tuple):
                 return len(v)
             if isinstance(v, (str, bytes)):
@@ -2499,7 +2909,6 @@ class Engine:
             srt = sort_of(m.vt if which == 'mapvalues' else m.kt)
             if srt != z3.IntSort():
                 raise Undecided('%s over non-integer map %s' % (name, which))
-            kws = {k.arg: self.ev(k.value, st) for k in node.keywords}
             r = z3.Int(fresh_name(name + '_of_map'))
             k1, k2 = z3.Const(fresh_name('mm_k'), sort_of(m.kt)), z3.Const(fresh_name('mm_j'), sort_of(m.kt))
             elem = (lambda k: z3.Select(m.val, k)) if which == 'mapvalues' else (lambda k: k)
@@ -2512,9 +2921,15 @@ class Engine:
                 st.assume(nonempty)
             return r
         if name in ('min', 'max'):
+            if set(kws) - {'default'}:
+                raise Undecided('%s() with key=' % name)
+            if len(args) == 1 and isinstance(args[0], SList):
+                raise Undecided('%s() of a list' % name)
             if len(args) == 1 and isinstance(args[0], tuple):
                 args = list(args[0])
                 if not args:
+                    if 'default' in kws:
+                        return kws['default']
                     raise PyRaise(SExc('ValueError'))
             r = self.num(args[0])
             for x in args[1:]:
@@ -2530,9 +2945,14 @@ class Engine:
                 raise Undecided('divmod of non-integers')
             # floor quotient and remainder of a positive divisor, introduced by their defining property (a == q*d + r,
             # 0 <= r < d) rather than by z3's div with a symbolic divisor, which the arithmetic solver handles poorly
-            self.oblige(st, 'safety/divmod-divisor-positive@L%d' % node.lineno, d_ > 0, kind='safety')
             q_, r_ = z3.Int(fresh_name('divmod_q')), z3.Int(fresh_name('divmod_r'))
-            st.assume(z3.And(a_ == q_ * d_ + r_, r_ >= 0, r_ < d_))
+            if not feasible(list(st.pc) + [d_ <= 0], 500):
+                self.oblige(st, 'safety/divmod-divisor-positive@L%d' % node.lineno, d_ > 0, kind='safety')
+                st.assume(z3.And(a_ == q_ * d_ + r_, r_ >= 0, r_ < d_))
+            else:
+                # a divisor that may be negative: the remainder has the sign of the divisor (floor division)
+                self.oblige(st, 'safety/divmod-divisor-nonzero@L%d' % node.lineno, d_ != 0, kind='safety')
+                st.assume(z3.And(a_ == q_ * d_ + r_, z3.If(d_ > 0, z3.And(r_ >= 0, r_ < d_), z3.And(r_ <= 0, r_ > d_))))
             return (q_, r_)
         if name == 'int':
             x = args[0]
@@ -2616,6 +3036,8 @@ class Engine:
     def call_method(self, recv, meth, node, st):
         args = [self.ev(a, st) for a in node.args]
         target = node.func.value
+        if meth in MUTATORS:
+            self._unaliased(target, recv, st, '.%s()' % meth)
         if isinstance(recv, SMap) and meth in ('issubset', 'issuperset') and len(args) == 1 and isinstance(args[0], SMap):
             a_, b_ = (recv, args[0]) if meth == 'issubset' else (args[0], recv)
             q = z3.Const(fresh_name('sub_k'), sort_of(recv.kt))
@@ -2712,12 +3134,12 @@ class Engine:
         key = '.' + meth
         if key in self.c.calls:
             kw = {k.arg: self.ev(k.value, st) for k in node.keywords}
-            return self.c.calls[key](self, st, [recv] + args, kw, node)
+            return self._call_model(self.c.calls[key], st, [recv] + args, kw, node)
         if isinstance(recv, SRecord):
             key2 = '%s.%s' % (recv.cls, meth)
             if key2 in self.c.calls:
                 kw = {k.arg: self.ev(k.value, st) for k in node.keywords}
-                return self.c.calls[key2](self, st, [recv] + args, kw, node)
+                return self._call_model(self.c.calls[key2], st, [recv] + args, kw, node)
         if isinstance(recv, z3.ExprRef) and recv.sort() == U and self.c.opaque_methods:
             # a method of an opaque object the contract says nothing about: result havocked, call recorded (contracts that
             # enumerate every permitted call turn the record into a failed obligation)
